@@ -7,6 +7,7 @@ instance with the same callbacks never sees a fault and supplies the expected ou
 
 from __future__ import annotations
 
+import collections
 import random
 import sys
 
@@ -130,6 +131,49 @@ def _mk_render_wrapper(key, orig, plan: Plan):
     return w
 
 
+LOOKUPISH = {"KeyError": "ValueError", "IndexError": "Private", "AttributeError": "TypeError",
+             "StopIteration": "KeyboardInterrupt"}
+
+
+class FaultyEnv(collections.UserDict):
+    """The caller-owned env is user code too (any MutableMapping is accepted): a store whose operations can fail.
+    Lookup-type exceptions are never injected here - a mapping that raises KeyError legitimately says 'no such key'."""
+
+    def __init__(self, plan: Plan):
+        super().__init__()
+        self._plan = plan
+
+    def _hit(self, op):
+        self._plan.hit(("env", op), lambda: {"silent": False, "level": 0, "stack": _lib_stack()})
+
+    def __contains__(self, key):
+        self._hit("contains")
+        return super().__contains__(key)
+
+    def __getitem__(self, key):
+        self._hit("getitem")
+        return super().__getitem__(key)
+
+    def __setitem__(self, key, value):
+        self._hit("setitem")
+        super().__setitem__(key, value)
+
+    def setdefault(self, key, default=None):
+        self._hit("setdefault")
+        if key not in self.data:
+            self.data[key] = default
+        return self.data[key]
+
+
+def _mk_hook(name, orig, plan: Plan):
+    site = ("hook", name)
+
+    def hk(url):
+        plan.hit(site, lambda: {"silent": False, "level": 0, "stack": _lib_stack()})
+        return orig(url)
+    return hk
+
+
 def _mk_highlight(mode, plan: Plan):
     site = ("highlight",)
 
@@ -169,6 +213,12 @@ def build_instance(rec: dict, plan: Plan):
         md.add_render_rule(key, _mk_render_wrapper(key, None, plan))
     if rec.get("highlight") is not None:
         md.options["highlight"] = _mk_highlight(rec["highlight"], plan)
+    if rec.get("hooks"):
+        for name in ("normalizeLink", "validateLink", "normalizeLinkText"):
+            try:
+                setattr(md, name, _mk_hook(name, getattr(md, name), plan))
+            except (AttributeError, TypeError):
+                pass        # not assignable on this tree: no such crash site
     return md
 
 
@@ -189,6 +239,8 @@ def chain_names(md) -> dict:
 
 def outcome(md, method, doc, env):
     """-> ("ok", value) | ("exc", exception object)"""
+    if isinstance(env, Plan):
+        env = FaultyEnv(env)
     try:
         v = getattr(md, method)(doc, env)
     except BaseException as e:  # noqa: BLE001 - the harness must see KeyboardInterrupt/SystemExit too
@@ -199,7 +251,7 @@ def outcome(md, method, doc, env):
 
 
 def _env_plain(env):
-    return {str(k): v for k, v in dict(env).items()}
+    return {str(k): v for k, v in dict(getattr(env, "data", env)).items()}
 
 
 def _is_library_error(e) -> bool:
@@ -279,7 +331,8 @@ def gen(rng: random.Random, tier: str) -> dict:
     rec = {"cfg": cfg, "plugins": _gen_plugins(rng),
            "extra_render": rng.sample(EXTRA_RENDER, rng.choice([0, 2, 5])),
            "highlight": rng.choice([None, 0, 0, 1, 2]),
-           "warm": rng.random() < 0.5, "chain_checks": rng.random() < 0.5, "battery": rng.random() < 0.4}
+           "warm": rng.random() < 0.5, "chain_checks": rng.random() < 0.5, "battery": rng.random() < 0.4,
+           "hooks": rng.random() < 0.35, "faulty_env": rng.random() < 0.3}
     if rng.random() < 0.12:
         rec["kind"] = "sweep"
         rec["method"] = rng.choice(METHODS)
@@ -313,7 +366,8 @@ def _resolve_fault(fault, counts: dict):
     if fault is None:
         return None
     if "site" in fault:
-        return (tuple(fault["site"]), int(fault["abs"]), fault["exc"])
+        exc = LOOKUPISH.get(fault["exc"], fault["exc"]) if fault["site"][0] == "env" else fault["exc"]
+        return (tuple(fault["site"]), int(fault["abs"]), exc)
     sites = sorted(s for s, n in counts.items() if n > 0)
     if not sites:
         return None
@@ -322,12 +376,19 @@ def _resolve_fault(fault, counts: dict):
     kp = fault.get("kind_pick")
     if kp is not None:
         kinds = sorted({s[0] for s in sites})
-        want = "highlight" if (kp < 0.12 and "highlight" in kinds) else ("render" if (kp < 0.40 and "render" in kinds) else "rule")
+        want = "rule"
+        for upto, kind in ((0.12, "highlight"), (0.40, "render"), (0.50, "hook"), (0.58, "env")):
+            if kp < upto and kind in kinds:
+                want = kind
+                break
         sub = [s for s in sites if s[0] == want]
         sites = sub or sites
     site = sites[min(int(fault["site_pick"] * len(sites)), len(sites) - 1)]
     n = counts[site]
-    return (site, 1 + min(int(fault["idx_pick"] * n), n - 1), fault["exc"])
+    exc = fault["exc"]
+    if site[0] == "env":
+        exc = LOOKUPISH.get(exc, exc)
+    return (site, 1 + min(int(fault["idx_pick"] * n), n - 1), exc)
 
 
 def _note_fired(res: RunResult, plan: Plan):
@@ -351,6 +412,10 @@ def _note_fired(res: RunResult, plan: Plan):
         res.count("crash_in_render_rule")
     if f["site"][0] == "highlight":
         res.count("crash_in_highlight")
+    if f["site"][0] == "hook":
+        res.count("crash_in_link_hook")
+    if f["site"][0] == "env":
+        res.count("crash_in_caller_owned_env")
     caller = stack[0] if stack else "?"
     res.reach("distinct_crash_points", "|".join([str(f["site"]), str(ctx.get("silent")), caller,
                                                  str(min(ctx.get("level", 0), 3)), f["exc"]]))
@@ -370,14 +435,17 @@ class _Run:
         self.base = snapshot(self.md)
         self.registered: list = []     # rules registered inside reset_rules blocks (they stay registered, switched off)
 
+    def env_for(self, plan):
+        return plan if self.rec.get("faulty_env") else {}
+
     def same_as_twin(self, method, doc, label, site):
         """A fault-free call on the instance must give what the never-faulted twin gives."""
         res = self.res
         self.plan.armed = None
         self.plan.reset()
         self.tplan.reset()
-        exp = outcome(self.twin, method, doc, {})
-        got = outcome(self.md, method, doc, {})
+        exp = outcome(self.twin, method, doc, self.env_for(self.tplan))
+        got = outcome(self.md, method, doc, self.env_for(self.plan))
         if exp[0] == "exc" or got[0] == "exc":
             if not (exp[0] == got[0] == "exc" and type(exp[1]) is type(got[1])):
                 res.fail("SUBSEQUENT_DIFF", f"{label}: {method}({doc!r}) -> {got!r} on the instance, {exp!r} on the "
@@ -412,7 +480,7 @@ class _Run:
         res = self.res
         # fault-free pass on the twin: expected outcome + invocation counts
         self.tplan.reset()
-        exp = outcome(self.twin, method, doc, {})
+        exp = outcome(self.twin, method, doc, self.env_for(self.tplan))
         armed = None if in_reset else _resolve_fault(fault, self.tplan.counts)
         if in_reset and fault is not None:
             # rules may differ inside a reset block: resolve against whatever fires first on the instance
@@ -423,7 +491,7 @@ class _Run:
         before = snapshot(self.md)
         self.plan.reset()
         self.plan.armed = armed
-        got = outcome(self.md, method, doc, {})
+        got = outcome(self.md, method, doc, self.env_for(self.plan))
         fired = self.plan.fired
         self.plan.armed = None
         res.steps += 1
@@ -584,7 +652,7 @@ class _Run:
         res, rec = self.res, self.rec
         method, doc = rec["method"], rec["doc"]
         self.tplan.reset()
-        outcome(self.twin, method, doc, {})
+        outcome(self.twin, method, doc, self.env_for(self.tplan))
         counts = dict(self.tplan.counts)
         points = [(s, i) for s in sorted(counts) for i in range(1, counts[s] + 1)]
         total = len(points)
@@ -621,8 +689,8 @@ class C14(Engine):
                                        "highlight function", "reset_rules bodies"],
                   "stub": [], "simulated": ["the crash point (site, invocation index, exception type)"]}
     expected_probes = ["crash_in_silent_mode", "crash_inside_blockquote_or_list", "crash_inside_link_label",
-                       "crash_inside_image_description", "crash_in_render_rule", "crash_in_highlight",
-                       "reset_rules_exception_exit", "reset_rules_nested", "library_error_inside_reset_rules",
+                       "crash_inside_image_description", "crash_in_render_rule", "crash_in_highlight", "crash_in_link_hook",
+                       "crash_in_caller_owned_env", "reset_rules_exception_exit", "reset_rules_nested", "library_error_inside_reset_rules",
                        "strict_ruler_call_failed_midway_inside_reset_rules", "rule_registered_inside_reset_rules"]
 
     def budget(self, tier):
@@ -665,6 +733,7 @@ class C14(Engine):
                 if cand and len(cand) < n:
                     yield {**rec, "ops": cand}
         for key, simple in (("plugins", []), ("extra_render", []), ("highlight", None), ("warm", False),
+                            ("hooks", False), ("faulty_env", False),
                             ("chain_checks", False), ("battery", False), ("cfg", dict(BASE_CFG))):
             if rec.get(key) != simple:
                 yield {**rec, key: simple}
